@@ -107,6 +107,12 @@ func badLine(rng *rand.Rand, class string, v6 bool) string {
 
 func genLeaseFile(rng *rand.Rand, v6 bool) string {
 	n := 1 + rng.Intn(40)
+	switch rng.Intn(12) {
+	case 0:
+		n = 150 + rng.Intn(100) // > 4096 bytes
+	case 1:
+		n = 2200 + rng.Intn(400) // > 65536 bytes
+	}
 	var lines []string
 	var macs [][]byte
 	for i := 0; i < n; i++ {
@@ -138,6 +144,23 @@ func genLeaseFile(rng *rand.Rand, v6 bool) string {
 			l += " "
 		}
 		lines = append(lines, l)
+	}
+	if rng.Intn(10) == 0 {
+		// one very long line (>= 64 KiB): a comment, or a lease line padded with blanks between its fields
+		pos := rng.Intn(len(lines) + 1)
+		l := 65500 + rng.Intn(6000)
+		long := "#" + strings.Repeat("c", l)
+		if rng.Intn(3) == 0 {
+			mac := make([]byte, 6)
+			rng.Read(mac)
+			macs = append(macs, mac)
+			ip := net.IPv4(10, 250, byte(rng.Intn(256)), byte(1+rng.Intn(254)))
+			if v6 {
+				ip = net.ParseIP(fmt.Sprintf("2001:db8:fa::%x", 1+rng.Intn(65535)))
+			}
+			long = net.HardwareAddr(mac).String() + strings.Repeat(" ", l) + ip.String()
+		}
+		lines = append(lines[:pos], append([]string{long}, lines[pos:]...)...)
 	}
 	if rng.Intn(3) == 0 {
 		// one malformation at a random position
@@ -509,6 +532,29 @@ func runFileRefresh(ctx *fw.Ctx, c *fileCase) {
 		}
 		next++
 	}
+	// finally: a large well-formed version and, right behind it, a small newer one. Whatever the refresh
+	// machinery does in between, it must end on the newer one and must not go back to the large one.
+	bigSmall := -1
+	if next <= 18 && c.Seed%2 == 0 {
+		var sb strings.Builder
+		for i := 0; i < c.Macs; i++ {
+			fmt.Fprintf(&sb, "%s %s\n", net.HardwareAddr(refreshMac(i)), versionAddr(v6, next, i))
+		}
+		for i := 0; i < 60000; i++ {
+			if v6 {
+				fmt.Fprintf(&sb, "0a:%02x:%02x:%02x:00:01 2001:db8:f0::%x\n", byte(i>>16), byte(i>>8), byte(i), i+1)
+			} else {
+				fmt.Fprintf(&sb, "0a:%02x:%02x:%02x:00:01 10.%d.%d.%d\n", byte(i>>16), byte(i>>8), byte(i), 100+i>>16, byte(i>>8), byte(i))
+			}
+		}
+		j.Reqs = append(j.Reqs, ChainReq{Write: &FileWrite{Name: "leases.txt", Content: sb.String(), Create: true}})
+		exps = append(exps, exp{kind: "noop"})
+		r := req(0, xid)
+		r.Write = &FileWrite{Name: "leases.txt", Content: versionFile(v6, c.Macs, next+1, ""), Create: true}
+		r.Poll = &PollSpec{Until: hex.EncodeToString(versionAddr(v6, next+1, 0)), MaxPolls: 150, IntervalMs: 20, Hold: true}
+		bigSmall = len(j.Reqs)
+		add(r, exp{kind: "big-small", ver: next + 1, prev: next, mac: 0})
+	}
 	out := RunChain(j, ctx.Scratch, 5*time.Minute)
 	desc := fmt.Sprintf("autorefresh v6=%v macs=%d steps=%v", v6, c.Macs, c.Steps)
 	ctx.Eval("C10", int64(len(c.Steps)))
@@ -541,6 +587,30 @@ func runFileRefresh(ctx *fw.Ctx, c *fileCase) {
 			} else {
 				seen = append(seen, -1)
 			}
+		}
+		if e.kind == "noop" {
+			continue
+		}
+		if e.kind == "big-small" {
+			_ = bigSmall
+			ctx.Count("file.refresh.big_then_small", 1)
+			last := -2
+			if len(seen) > 0 {
+				last = seen[len(seen)-1]
+			}
+			sawNew := false
+			for _, v := range seen {
+				if v == e.ver {
+					sawNew = true
+				} else if sawNew && v >= 11 {
+					ctx.Viol("C10", "refresh-went-back-to-older-file", "%s: a large version %d was written and, right behind it, the small newer version %d; the server served %d and later went back: %v", desc, e.prev, e.ver, e.ver, seen)
+					break
+				}
+			}
+			if last != e.ver {
+				ctx.Viol("C10", "refresh-ends-on-older-file", "%s: a large version %d was written and, right behind it, the small newer version %d; after 3 s of polling the server serves %v", desc, e.prev, e.ver, seen)
+			}
+			continue
 		}
 		if e.kind == "initial" {
 			if len(r.Caps) == 1 {
